@@ -18,6 +18,7 @@ pub mod c20;
 pub mod common;
 pub mod hist;
 pub mod prim;
+pub mod wide;
 
 /// `with_property!(id, p => expr)`: bind `p` to the property object for `id`.
 #[macro_export]
